@@ -21,16 +21,21 @@ Theorem C15_single_writer_completes : forall t0 g n,
 Proof. exact single_writer_completes. Qed.
 Print Assumptions C15_single_writer_completes.
 
-(* decision table: rewritten iff missing, older than the source, or another generator version *)
+(* decision table: rewritten iff missing, older than the source, another generator version, or generated from another
+   source file (the path of a module file derives from the URI alone) *)
 Theorem C15_stale_is_rewritten : forall cur src m,
   decide cur src m = Rewrite <->
-  (m = None \/ exists mt mg, m = Some (mt, mg) /\ (mt < src \/ mg <> cur)).
+  (m = None \/ exists mt mg same, m = Some (mt, mg, same) /\ (mt < src \/ mg <> cur \/ same = false)).
 Proof. exact stale_is_rewritten. Qed.
 Print Assumptions C15_stale_is_rewritten.
 
-Theorem C15_fresh_is_reused : forall cur src mt, src <= mt -> decide cur src (Some (mt, cur)) = Reuse.
+Theorem C15_fresh_is_reused : forall cur src mt, src <= mt -> decide cur src (Some (mt, cur, true)) = Reuse.
 Proof. exact fresh_is_reused. Qed.
 Print Assumptions C15_fresh_is_reused.
+
+Theorem C15_foreign_module_is_rewritten : forall cur src mt mg, decide cur src (Some (mt, mg, false)) = Rewrite.
+Proof. exact foreign_module_is_rewritten. Qed.
+Print Assumptions C15_foreign_module_is_rewritten.
 
 Theorem C15_writer_called_exactly_when_due : forall cur src m,
   writes_performed cur src m = match decide cur src m with Rewrite => 1 | Reuse => 0 end.
